@@ -15,7 +15,7 @@ CHECKS = {
   technique=B2 + " + " + "TLA+ trace validation (TLC) of recorded executions", ref="DESIGN.md 7/C08"),
  "C09": dict(
   text="Quota.tla transcribes the preparation phase of an epoch in exact integer arithmetic (adjustFitness: stagnation penalty, youth boost, sharing, parent cut-off; expected offspring = shared adjusted fitness / population mean; countOffspring floor-and-carry in species order; make-up offspring / population-died fallback; zero-quota purge; species sort and population stagnation; stolen babies; delta coding). TLC checks on every population in scope that quotas total the population size after every stage, that every quota is within one of its members' expected offspring (plus the single make-up offspring), the parent cut-off floor(t*n)+1 and the zero-quota purge, and emits every behaviour with every admissible float64 loss vector; each is installed in a real Population and run through the real adjustFitness / purgeZeroOffspringSpecies (compared after each), the real prepareForReproduction + Species.reproduce per species (offspring per species = quota) and the three executor phases of a whole epoch. In addition real populations evolved with real-valued fitness families under randomised options are recorded after the preparation phase and validated by the TLC trace specification Trace_Quota (fixed point 2^-20).",
-  note="Exhaustive: populations of up to 6 organisms (quick; 8 thorough) in up to 3 (4) species, every multiset of raw fitness over 0..2 or 0..3 with at least one positive value, age classes covering fresh / stagnant / debt-exactly-0 / age 10 vs 11 / improving-now, survival thresholds 1/4, 1/2, 3/4, 1, babies stolen 1..N/2, population one or two epochs before delta coding; the coin of giveBabiesToTheBest (4th sorted species) is forced through the seed. float64: where the exact cumulative expectation at a species boundary is an integer the floor may come out one lower - both outcomes are enumerated and the one the real arithmetic takes is compared exactly; per-organism values to 1e-9 relative. Who receives stolen babies / the make-up offspring, the species order and the stagnation bookkeeping are compared too but only reported (the statement demands totals). Real-valued fitness is sampled (seeded), tolerance 4 units of 2^-20. Trusted: TLC, the replayer's construction of populations.",
+  note="Exhaustive: populations of up to 6 organisms (quick; 8 thorough) in up to 3 (4) species, every multiset of raw fitness over 0..2 or 0..3 with at least one positive value, age classes covering fresh / stagnant / debt-exactly-0 / age 10 vs 11 / improving-now, survival thresholds 1/4, 1/2, 3/4, 1, babies stolen 1..N/2, population one or two epochs before delta coding; the coin of giveBabiesToTheBest (4th sorted species) is forced through the seed. Populations of 7..10 organisms in up to 5 species by TLC simulation. float64: where the exact cumulative expectation at a species boundary is an integer the floor may come out one lower - both outcomes are enumerated and the one the real arithmetic takes is compared exactly, except on inputs where every float operation is provably exact (no 0.01 penalty, power-of-two sizes, dyadic mean and expectations), where no loss is accepted; per-organism values to 1e-9 relative. Who receives stolen babies / the make-up offspring, the species order and the stagnation bookkeeping are compared too but only reported (the statement demands totals). Real-valued fitness is sampled (seeded), tolerance 4 units of 2^-20. Trusted: TLC, the replayer's construction of populations.",
   technique=B2 + " + " + "TLA+ trace validation (TLC) of recorded executions", ref="DESIGN.md 7/C09"),
 }
 
@@ -187,7 +187,7 @@ def c09(ctx, replay):
     if replay is None:
         # larger populations (7..10 organisms, up to 5 species, all age classes and modes) by TLC simulation; a simulated
         # behaviour fixes ONE loss vector at random, so only those that agree with the real arithmetic are compared
-        sim = ctx.tlc("MC_Quota", "Sim_Quota.cfg", simulate="num=%d" % (300 if thorough else 12), depth=14, workers=8 if thorough else 4,
+        sim = ctx.tlc("MC_Quota", "Sim_Quota.cfg", simulate="num=%d" % (1000 if thorough else 12), depth=14, workers=8 if thorough else 4,
                       extra=["-seed", str(ctx.seed)], timeout=1800)
         spec_must_hold(sim, "Sim_Quota")
         sim_rep_file = ctx.path("quota_sim_report.json")
@@ -198,7 +198,7 @@ def c09(ctx, replay):
         ctx.extra["scope"]["simulate"] = "7..10 organisms, <= 5 species, fitness 0..3, 9 age classes, babies stolen 0..5, 3 stagnation modes"
     if replay is not None and b1 is None:
         return
-    scen, epochs = (500, 16) if thorough else (50, 10)
+    scen, epochs = (800, 20) if thorough else (50, 10)
     seed = ctx.seed
     if b1 is not None:
         scen, epochs, seed = b1["scenarios"], b1["epochs"], b1["seed"]
